@@ -134,7 +134,9 @@ theorem ack_clause_is_code_test (s : Session) (hs : SInv s) (a : Nat) (ha : a < 
 /-- Non-vacuity: on an established session (window 5, segment size 20, nothing sent yet) a
 stand-alone acknowledgement of the never-sent sequence number 77 is a violation, and so are a data
 segment with sequence number 5 when 0 is expected, a segment with beginning+continue, a
-non-final segment that does not fill the segment size, and a management opcode; a well-formed
+non-final segment that does not fill the segment size, a management opcode, and an empty ENDING
+(or CONTINUE+ENDING) segment with no message in progress (accepted by the code before the fix
+`C18-orphan-ending-segment`: it took a sequence number and a window slot and delivered nothing); a well-formed
 one-segment message is not, and is accepted. -/
 example : ∃ s, (Session.fresh false false).processRx none [0x65, 0x6c, 4, 0, 0, 0, 23, 0, 5] 0 = .ok s ∧
     Spec.mustReject (viewOf s) { ack := true, ackNum := 77, seqNum := 0 } [] = true ∧
@@ -142,10 +144,12 @@ example : ∃ s, (Session.fresh false false).processRx none [0x65, 0x6c, 4, 0, 0
     Spec.mustReject (viewOf s) { beg := true, cont := true, fin := true, msgLen := 1, seqNum := 0 } [7] = true ∧
     Spec.mustReject (viewOf s) { beg := true, msgLen := 40, seqNum := 0 } [7] = true ∧
     Spec.mustReject (viewOf s) { mgmt := true, opcode := 1, beg := true, fin := true, msgLen := 1, seqNum := 0 } [7] = true ∧
+    Spec.mustReject (viewOf s) { fin := true, seqNum := 0 } [] = true ∧
+    Spec.mustReject (viewOf s) { cont := true, fin := true, seqNum := 0 } [] = true ∧
     Spec.mustReject (viewOf s) { beg := true, fin := true, msgLen := 1, seqNum := 0 } [7] = false ∧
     Spec.noRoom (ringFree s.recv.buf) { beg := true, fin := true, msgLen := 1, seqNum := 0 } [7] = false ∧
     (∃ s', s.processRxData { beg := true, fin := true, msgLen := 1, seqNum := 0 } [7] 3 = .ok s') := by
-  exact ⟨_, rfl, by decide, by decide, by decide, by decide, by decide, by decide, by decide, _, rfl⟩
+  exact ⟨_, rfl, by decide, by decide, by decide, by decide, by decide, by decide, by decide, by decide, by decide, _, rfl⟩
 
 /-! ## Window slots and the acknowledgement deadline (session level) -/
 
@@ -281,7 +285,11 @@ never fetches, the acknowledgement is never sent and the peer's idle timeout clo
 (2) the send window is exhausted (`level = 0`: the stand-alone acknowledgement needs a sequence
 number of its own; it waits for the peer's acknowledgement - between two rs-matter ends this cannot
 persist: `never_dead`, `C18_live_holds`); (3) the responder has not sent its handshake response
-yet (it goes out first, on the same poll sequence). `since` records when the last of them ended. -/
+yet (it goes out first, on the same poll sequence). `since` records when the last of them ended.
+("Exactly the negation of `ackable`" is a statement about the CODE's `pending_ack`; before the fix
+`C18-handshake-response-never-acked` it hid a fourth case: at an initiator `ack_level` was 0 although
+the handshake response - the responder's segment 0 - had been received, so its acknowledgement was
+never pending. The fixed `setup` counts it, and the oracle of the correspondence check demands it.) -/
 theorem ack_within_deadline (l0 : LMon) (y : Side) (ops : List Op) (p : Nat) :
     let m := ackRun y (AckMon.init l0 y) ops
     m.l = runLink l0 ops ∧
@@ -604,15 +612,17 @@ theorem small_window_steady_2 : Steady (smallWindowLink 2) ∧
     (smallWindowLink 2).a.e.s.established = true :=
   ⟨steady_of_idle _ (by decide) (by decide) (by decide) (by decide), by decide, by decide, by decide⟩
 
-/-- **Window 1 stalls** (not a statement about two rs-matter ends, which never negotiate it): the
-responder's only slot is taken by the handshake response, which the initiator never acknowledges
-on its own (`setup`: `ack_level = 0`), and the initiator's only slot is reserved for a segment
-that carries an acknowledgement (`is_full`): neither end ever emits anything, whatever the clock.
-Safety (`in_order_once`) holds trivially; liveness is claimed for windows ≥ 3 only. -/
+/-- **Window 1** (not a statement about two rs-matter ends, which never negotiate it): the
+responder's only slot is taken by the handshake response; the initiator counts the response as a
+received, unacknowledged segment (`setup`, fix `C18-handshake-response-never-acked`), so its
+acknowledgement is due at once (`recv.level ≤ 1`) and goes out with the first data segment; from
+then on the two ends alternate. Messages cross in both directions. (Before the fix neither end
+ever emitted anything: the initiator's only slot is reserved for a segment that carries an
+acknowledgement, and it had none to send.) Liveness is *proved* for windows ≥ 3 only. -/
 example :
-    let l := runLink (smallWindowLink 1) [.send .a [1, 2, 3], .send .b [9], .poll .a, .poll .b, .tick 15, .poll .a, .poll .b,
-       .tick 1000, .poll .a, .poll .b]
-    l.qab = [] ∧ l.qba = [] ∧ l.a.e.sdu = [1, 2, 3] ∧ l.b.e.sdu = [9] := by decide
+    let l := runLink (smallWindowLink 1) [.send .a [1, 2, 3], .send .b [9], .poll .a, .poll .b, .deliver .b, .poll .b,
+      .poll .a, .deliver .a, .poll .a, .poll .b, .deliver .b, .fetch .b 100, .poll .b, .deliver .a, .fetch .a 100]
+    l.b.fetched = [([1, 2, 3], 100)] ∧ l.a.fetched = [([9], 100)] := by decide
 
 /-- window 2: messages cross in both directions -/
 example :
@@ -626,16 +636,16 @@ example :
 theorem small_window_sync_2 : Sync 2 20 (smallWindowLink 2) := by
   have hp : POk 2 20 := ⟨by omega, by omega, by omega, by omega, by omega⟩
   refine sync_mk .b small_window_steady_2.1 hp (by decide) (by decide) ?_ ?_ ?_
-  · have := d1_init hp (some 0)
+  · have := d1_init hp (some 0) 0
     have e1 : ((smallWindowLink 2).get .b).e.s.send = { windowSize := 2, level := 2 - 1, lastSent := 0, sentAt := some 0 } := by decide
-    have e2 : ((smallWindowLink 2).get Side.b.other).e.s.recv = { level := 2, ackSeq := 0 } := by decide
+    have e2 : ((smallWindowLink 2).get Side.b.other).e.s.recv = { level := 2 - 1, ackLevel := 1, ackSeq := 0, receivedAt := some 0 } := by decide
     have e3 : ((smallWindowLink 2).get Side.b.other).rs = {} := by decide
     have e4 : (smallWindowLink 2).inq Side.b.other = [] := by decide
     have e5 : (smallWindowLink 2).inq Side.b = [] := by decide
     rw [e1, e2, e3, e4, e5]; exact this
   · have := d2_init hp false
     have e1 : ((smallWindowLink 2).get Side.b.other).e.s.send = { windowSize := 2, level := 2 } := by decide
-    have e2 : ((smallWindowLink 2).get Side.b).e.s.recv = ((Session.fresh false false).setup 4 20 2).recv := by decide
+    have e2 : ((smallWindowLink 2).get Side.b).e.s.recv = ((Session.fresh false false).setup 4 20 2 0).recv := by decide
     have e3 : ((smallWindowLink 2).get Side.b).rs = {} := by decide
     have e4 : (smallWindowLink 2).inq Side.b.other = [] := by decide
     have e5 : (smallWindowLink 2).inq Side.b = [] := by decide
@@ -911,16 +921,21 @@ operations `Poll` / `Deliver` are no longer executed; the applications may still
 
 * Safety is unaffected: `in_order_once_timed`, `window_respected_timed`.
 * Liveness becomes "delivered, or the session is closed by the idle timeout": `C18_live_timed`.
-* When does it fire between two healthy ends?  `timeout_only_in_slack`: under a *timely* schedule
-  (`TimelyFrom`: the clock advances only when nothing travels, nothing waits to be fetched and both
-  pumps have run, and by at most 15 s at a time) it fires ONLY in the `Slack` state: the end counts
-  one segment as unacknowledged that the peer does not hold for acknowledgement - the handshake
-  response, which an rs-matter initiator acknowledges only together with a later segment of the
-  responder - while nothing travels.  In every other state the acknowledgement ping-pong (every
-  stand-alone acknowledgement is a segment that must itself be acknowledged 15 s later) keeps every
-  running idle timer below 30 s.  `idle_close_example`: the Slack case is real (an established link
-  on which the initiator's first message comes later than 15 s after the handshake is closed by the
-  responder 30 s after the handshake); replayed on the real code in `corpus/C18/idle-timeout.txt`. -/
+* Does it fire between two healthy ends?  Under a *timely* schedule (`TimelyFrom`: the clock
+  advances only when nothing travels, nothing waits to be fetched and both pumps have run, and by
+  at most 15 s at a time), from a `Timed` state (e.g. right after the handshake), window ≥ 2:
+  **never** (`timeout_never_fires`, `never_closed`): the peer holds every unacknowledged segment
+  for acknowledgement (`Tight`), its 15 s acknowledgement timer started no later than our 30 s
+  idle timer (`TDir.t2`) and fires first; every stand-alone acknowledgement is a segment that
+  must itself be acknowledged 15 s later, so the ping-pong keeps an established link alive for
+  ever.  Hence `C18_live_timely`: under a fair AND timely schedule every submitted message is
+  fetched and the session is never closed.
+  This holds for the code WITH the fix `C18-handshake-response-never-acked` (`Session::setup`: the
+  initiator counts the handshake response as a received, unacknowledged segment).  Before it the
+  responder's handshake response was acknowledged only together with a later segment of the
+  responder, `Tight` had a slack of one segment, and a responder that sent nothing for 30 s after
+  the handshake closed a healthy session (`late_first_message_example`, formerly
+  `idle_close_example`; `corpus/C18/idle-timeout.txt` case 3 on the real code). -/
 
 theorem runT_link (tops : List TOp) : ∀ t : TMon, (runT t tops).l = runLink t.l (executed t tops) := by
   induction tops with
@@ -1036,7 +1051,8 @@ theorem window_respected_timed (ra rb : Bool) (ga gb : Option Nat) (tops : List 
 `tops`, for every message accepted by `send` at `x` and every continuation `f` whose projection
 (timeout checks erased) is fair in the sense of `C18_live`: the message is eventually fetched at the
 other end, **or the session is eventually closed by the idle timeout**.  (Without further
-assumptions on the schedule the second case is real: `idle_close_example`.) -/
+assumptions on the schedule the second case is real: a schedule that lets the clock run while
+segments are in flight or messages unfetched; under timely schedules it is not: `C18_live_timely`.) -/
 theorem C18_live_timed (ra rb : Bool) (ga gb : Option Nat) (tops : List TOp) (f : Nat → TOp)
     (hw : WfTSched tops) (hwf : ∀ i, WfOp (f i).proj)
     (hdel : ∀ y i, ∃ j ≥ i, (f j).proj = .deliver y)
@@ -1074,29 +1090,25 @@ theorem timed_run {W M : Nat} (hw2 : 2 ≤ W) (ops : List Op) : ∀ (l : LMon), 
     exact ih _ (timed_step1 h hw2 (hw op List.mem_cons_self) ht.1)
       (fun o ho => hw o (List.mem_cons_of_mem _ ho)) ht.2
 
-/-- **`timeout_only_in_slack`**: in every state reached by a timely schedule from such a state, the
-idle timeout of an end `x` (`Btp::timeout()`) can answer `true` only in the `Slack` state of the
-direction `x → peer` (see the section header).  In particular it never fires at an end all of whose
-unacknowledged segments are held by the peer for acknowledgement, however long the link is idle:
-the peer's 15 s acknowledgement timer fires first. -/
-theorem timeout_only_in_slack {W M : Nat} (hw2 : 2 ≤ W) (l0 : LMon) (h0 : Timed W M l0) (ops : List Op)
-    (hw : WfSched ops) (ht : TimelyFrom l0 ops) (x : Side)
-    (hto : ((runLink l0 ops).get x).e.timeout (runLink l0 ops).now = true) : Slack W (runLink l0 ops) x :=
-  timeout_slack (timed_run hw2 ops l0 h0 hw ht) x hto
+/-- **`timeout_never_fires`**: in every state reached by a timely schedule from a `Timed` state
+(window ≥ 2) the idle timeout of either end (`Btp::timeout()`) answers `false`, however long the
+link is idle: the peer's 15 s acknowledgement timer fires first. -/
+theorem timeout_never_fires {W M : Nat} (hw2 : 2 ≤ W) (l0 : LMon) (h0 : Timed W M l0) (ops : List Op)
+    (hw : WfSched ops) (ht : TimelyFrom l0 ops) (x : Side) :
+    ((runLink l0 ops).get x).e.timeout (runLink l0 ops).now = false :=
+  timeout_never (timed_run hw2 ops l0 h0 hw ht) x
 
-/-- **`close_only_in_slack`** (timed link, whole run): start from an open timed link whose state
-satisfies `Timed` (e.g. right after the handshake, `timed_after_handshake`) and run any schedule of
-operations and timeout checks whose executed link operations are timely.  If the session ends up
-closed, then at the moment the timeout fired (after the prefix `tops1`, at end `x`) the direction
-`x → peer` was in the `Slack` state. -/
-theorem close_only_in_slack {W M : Nat} (hw2 : 2 ≤ W) (tops : List TOp) : ∀ (t : TMon), t.closed = false →
-    Timed W M t.l → WfTSched tops → TimelyFrom t.l (executed t tops) → (runT t tops).closed = true →
-    ∃ tops1 x, tops1 <+: tops ∧ (runT t tops1).closed = false ∧ Slack W (runT t tops1).l x ∧
-      ((runT t tops1).l.get x).e.timeout (runT t tops1).l.now = true := by
+/-- **`never_closed`** (timed link, whole run): start from an open timed link whose state satisfies
+`Timed` (e.g. right after the handshake, `timed_after_handshake`) and run any schedule of
+operations and timeout checks whose executed link operations are timely: the session is never
+closed (and `Timed` still holds). -/
+theorem never_closed {W M : Nat} (hw2 : 2 ≤ W) (tops : List TOp) : ∀ (t : TMon), t.closed = false →
+    Timed W M t.l → WfTSched tops → TimelyFrom t.l (executed t tops) →
+    (runT t tops).closed = false ∧ Timed W M (runT t tops).l := by
   induction tops with
-  | nil => intro t hc _ _ _ h; simp only [runT] at h; rw [hc] at h; cases h
+  | nil => intro t hc ht _ _; exact ⟨hc, ht⟩
   | cons o os ih =>
-    intro t hc ht hw htl hcl
+    intro t hc ht hw htl
     have hw' : WfTSched os := fun o' ho => hw o' (List.mem_cons_of_mem _ ho)
     cases o with
     | op o =>
@@ -1105,32 +1117,73 @@ theorem close_only_in_slack {W M : Nat} (hw2 : 2 ≤ W) (tops : List TOp) : ∀ 
       simp only [executed, hc, Bool.false_and, Bool.false_eq_true, if_false] at htl
       rw [hstep] at htl
       have ht' : Timed W M (t.l.step1 o) := timed_step1 ht hw2 (hw o List.mem_cons_self) htl.1
-      simp only [runT] at hcl
-      rw [hstep] at hcl
-      obtain ⟨tops1, x, hp, h1, h2, h3⟩ := ih { t with l := t.l.step1 o } hc ht' hw' htl.2 hcl
-      refine ⟨.op o :: tops1, x, List.cons_prefix_cons.mpr ⟨rfl, hp⟩, ?_, ?_, ?_⟩ <;>
-        (simp only [runT]; rw [hstep]; assumption)
+      simp only [runT]
+      rw [hstep]
+      exact ih { t with l := t.l.step1 o } hc ht' hw' htl.2
     | timeout x =>
-      by_cases hf : (t.l.get x).e.timeout t.l.now = true
-      · exact ⟨[], x, List.nil_prefix, hc, timeout_slack ht x hf, hf⟩
-      · have hstep : t.step (.timeout x) = t := by simp only [TMon.step, hf, Bool.false_eq_true, if_false]
-        simp only [executed] at htl
-        rw [hstep] at htl
-        simp only [runT] at hcl
-        rw [hstep] at hcl
-        obtain ⟨tops1, x', hp, h1, h2, h3⟩ := ih t hc ht hw' htl hcl
-        refine ⟨.timeout x :: tops1, x', List.cons_prefix_cons.mpr ⟨rfl, hp⟩, ?_, ?_, ?_⟩ <;>
-          (simp only [runT]; rw [hstep]; assumption)
+      have hf : (t.l.get x).e.timeout t.l.now = false := timeout_never ht x
+      have hstep : t.step (.timeout x) = t := by simp only [TMon.step, hf, Bool.false_eq_true, if_false]
+      simp only [executed] at htl
+      rw [hstep] at htl
+      simp only [runT]
+      rw [hstep]
+      exact ih t hc ht hw' htl
 
-/-- Non-vacuity of `Timed`: the state right after an (instantaneous) handshake between two fresh
-ends, window 79, segment size 20. -/
-theorem timed_after_handshake : Timed 79 20 (runLink (freshLink false false none none) handshakeOps) := by
+/-- **`C18_live_timely`** (liveness with the idle timeout present and no "or closed" disjunct): from
+an open timed link in a `Timed` state (window ≥ 3), under every continuation `f` of operations and
+timeout checks whose projection is fair (`C18_live`) and whose executed operations are timely, every
+message accepted by `send` at `x` is eventually fetched at the other end, and the session is still
+open then.  (Joint satisfiability of "fair" and "timely" for an infinite schedule depends on the
+state - enough delivery / fetch / poll rounds before every tick - and is shown on finite prefixes
+only: `pingPongOps`, `lateOps1`.) -/
+theorem C18_live_timely {W M : Nat} (hw3 : 3 ≤ W) (t : TMon) (hc : t.closed = false) (ht : Timed W M t.l)
+    (f : Nat → TOp) (hwf : ∀ i, WfOp (f i).proj)
+    (hdel : ∀ y i, ∃ j ≥ i, (f j).proj = .deliver y)
+    (htp : ∀ y i, ∃ j ≥ i, (f j).proj = .tick 15 ∧ (f (j + 1)).proj = .poll y)
+    (hfet : ∀ y i, ∃ j ≥ i, (f j).proj = .fetch y 1232)
+    (htl : ∀ n, TimelyFrom t.l (executed t ((List.range n).map f)))
+    (x : Side) (k : Nat) (hk : k < (t.l.get x).submitted.length) :
+    ∃ n, k < ((runT t ((List.range n).map f)).l.get x.other).fetched.length ∧
+      (runT t ((List.range n).map f)).closed = false := by
+  have hwT : ∀ n, WfTSched ((List.range n).map f) := by
+    intro n o ho
+    obtain ⟨i, _, hi⟩ := List.mem_map.mp ho
+    have := hwf i
+    rw [hi] at this; exact this
+  have hopen : ∀ n, (runT t ((List.range n).map f)).closed = false := fun n =>
+    (never_closed (by omega) _ t hc ht (hwT n) (htl n)).1
+  have hfair : Fair (fun i => (f i).proj) :=
+    ⟨hwf, fun y i => by obtain ⟨j, h1, h2⟩ := hdel y i; exact ⟨j, h1, h2⟩,
+      fun y i => by obtain ⟨j, h1, h2⟩ := htp y i; exact ⟨j, h1, h2⟩,
+      fun y i => by obtain ⟨j, h1, h2⟩ := hfet y i; exact ⟨j, h1, h2⟩⟩
+  obtain ⟨n, hn⟩ := sync_delivers hw3 x k (fun i => (f i).proj) t.l hfair ht.linv ht.sync hk
+  refine ⟨n, ?_, hopen n⟩
+  rw [runT_open f t n (hopen n)]
+  exact hn
+
+/-- the handshake between two fresh ends, whatever the GATT MTUs and negotiation modes, leads to the
+explicit state `hsDone` -/
+theorem handshake_run (ra rb : Bool) (ga gb : Option Nat) :
+    runLink (freshLink ra rb ga gb) handshakeOps = hsDone ra rb ga gb := by
+  show runLink (fresh2 ra rb ga gb) [.poll .a, .deliver .b, .poll .b, .deliver .a] = _
+  rw [runLink_cons, step1_ok (hs_step1 ra rb ga gb), runLink_cons, step1_ok (hs_step2 ra rb ga gb),
+    runLink_cons, step1_ok (hs_step3 ra rb ga gb), runLink_cons, step1_ok (hs_step4 ra rb ga gb)]
+  rfl
+
+/-- **`timed_after_handshake`** (non-vacuity of `Timed`, for EVERY configuration two rs-matter ends
+can negotiate): the state right after an (instantaneous) handshake between two fresh ends - any
+GATT MTUs, strict / relaxed negotiation - satisfies the representation, cross-end and time-stamp
+invariants with the negotiated window and segment size. -/
+theorem timed_after_handshake (ra rb : Bool) (ga gb : Option Nat) :
+    Timed (negWin ga gb rb) (negMtu ga gb rb) (runLink (freshLink ra rb ga gb) handshakeOps) := by
   have hwf : WfSched handshakeOps := by
     intro op h; simp [handshakeOps] at h
     rcases h with rfl | rfl | rfl | rfl <;> trivial
-  obtain ⟨hl, hp⟩ := phase_run false false none none handshakeOps hwf
-  have hest : (runLink (freshLink false false none none) handshakeOps).a.e.s.established = true := by decide
-  have hsync : Sync 79 20 (runLink (freshLink false false none none) handshakeOps) := by
+  obtain ⟨hl, hp⟩ := phase_run ra rb ga gb handshakeOps hwf
+  have hW := (negPar ga gb rb).w1
+  rw [handshake_run] at hl hp ⊢
+  have hest : (hsDone ra rb ga gb).a.e.s.established = true := rfl
+  have hsync : Sync (negWin ga gb rb) (negMtu ga gb rb) (hsDone ra rb ga gb) := by
     cases hp with
     | p0 _ sa => rw [sa] at hest; cases hest
     | p1 _ sa => rw [sa] at hest; cases hest
@@ -1139,28 +1192,27 @@ theorem timed_after_handshake : Timed 79 20 (runLink (freshLink false false none
     | sync h => exact h
   refine ⟨hl, hsync, fun x => ?_⟩
   cases x
-  · refine ⟨by decide, ?_, ?_, ?_, ?_⟩
+  · refine ⟨?_, ?_, ?_, ?_, ?_, ?_⟩
+    · intro h; exact absurd h (Nat.lt_irrefl _)
+    · intro h; cases h
     · intro r hr
-      have : ((runLink (freshLink false false none none) handshakeOps).get .a).e.s.recv.receivedAt = none := by decide
-      rw [this] at hr; cases hr
-    · intro hne; exact absurd (by decide) hne
-    · intro hal; exact absurd hal (by decide)
+      have : r = 0 := (Option.some.inj hr).symm
+      omega
+    · intro hne; exact absurd rfl hne
+    · intro hal; exact absurd hal (Nat.lt_irrefl _)
+    · intro s hs; cases hs
+  · refine ⟨?_, ?_, ?_, ?_, ?_, ?_⟩
+    · intro _; rfl
+    · intro _; show negWin ga gb rb - 1 < negWin ga gb rb; omega
+    · intro r hr; cases hr
+    · intro hne; exact absurd rfl hne
+    · intro _ r s hr hs
+      have h1 : r = 0 := (Option.some.inj hr).symm
+      have h2 : s = 0 := (Option.some.inj hs).symm
+      omega
     · intro s hs
-      have : ((runLink (freshLink false false none none) handshakeOps).get .a).e.s.send.sentAt = none := by decide
-      rw [this] at hs; cases hs
-  · refine ⟨by decide, ?_, ?_, ?_, ?_⟩
-    · intro r hr
-      have : ((runLink (freshLink false false none none) handshakeOps).get .b).e.s.recv.receivedAt = none := by decide
-      rw [this] at hr; cases hr
-    · intro hne; exact absurd (by decide) hne
-    · intro hal; exact absurd hal (by decide)
-    · intro s hs
-      have : ((runLink (freshLink false false none none) handshakeOps).get .b).e.s.send.sentAt = some 0 := by decide
-      rw [this] at hs
-      left
-      have := Option.some.inj hs
-      have hn : (runLink (freshLink false false none none) handshakeOps).now = 0 := by decide
-      rw [hn]; omega
+      have h2 : s = 0 := (Option.some.inj hs).symm
+      show 0 ≤ _; omega
 
 /-- a timely schedule after the handshake: one message `a → b`, then three rounds of the
 acknowledgement ping-pong, the clock advancing by 15 s only when everything has settled -/
@@ -1171,7 +1223,7 @@ def pingPongOps : List Op :=
    .tick 15, .poll .b, .deliver .a, .poll .a, .poll .b,
    .tick 14, .poll .a, .poll .b]
 
-/-- Non-vacuity of `TimelyFrom` / `timeout_only_in_slack`: `pingPongOps` is timely; the clock reaches
+/-- Non-vacuity of `TimelyFrom` / `timeout_never_fires`: `pingPongOps` is timely; the clock reaches
 59 s, three stand-alone acknowledgements have crossed, `b`'s idle timer (last restarted at 45 s) runs,
 and neither timeout fires. -/
 example :
@@ -1183,28 +1235,31 @@ example :
     (runLink (freshLink false false none none) (handshakeOps ++ pingPongOps)).b.e.timeout 59 = false :=
   ⟨timely_of_B _ _ (by decide), by decide, by decide, by decide, by decide, by decide⟩
 
-def idleOps1 : List Op :=
-  [.tick 15, .tick 5, .send .a [1, 2, 3], .poll .a, .deliver .b, .fetch .b 100, .poll .b, .poll .a, .tick 11]
+/-- nothing is submitted for 20 s after the handshake: the initiator's stand-alone acknowledgement
+of the handshake response goes out when its 15 s timer fires; then the first message -/
+def lateOps1 : List Op :=
+  [.tick 15, .poll .a, .deliver .b, .poll .b, .poll .a, .tick 5,
+   .send .a [1, 2, 3], .poll .a, .deliver .b, .fetch .b 100, .poll .b, .poll .a, .tick 11]
 
-def idleOps2 : List Op :=
-  [.send .a [4, 5], .poll .a, .deliver .b, .tick 15, .poll .b, .deliver .a, .fetch .b 100]
+def lateOps2 : List Op := [.send .a [4, 5], .poll .a, .deliver .b, .fetch .b 100]
 
-/-- handshake (4 operations), `idleOps1` (9), the timeout tasks of both ends (`b`'s fires), `idleOps2` -/
-def idleCloseTops : List TOp :=
-  (handshakeOps ++ idleOps1).map TOp.op ++ [.timeout .a, .timeout .b] ++ idleOps2.map TOp.op
+/-- handshake (4 operations), `lateOps1`, the timeout tasks of both ends, `lateOps2` -/
+def lateTops : List TOp :=
+  (handshakeOps ++ lateOps1).map TOp.op ++ [.timeout .a, .timeout .b] ++ lateOps2.map TOp.op
 
-/-- **`idle_close_example`** (the `Slack` case is real): after the handshake nothing happens for
-20 s; then `a` submits a message, it is delivered and fetched at `b` (time 20: `b`'s
-acknowledgement is due at 35); at time 31 `b`'s idle timeout fires - its handshake response (sent at
-time 0) is still unacknowledged, because an rs-matter initiator acknowledges it only together with a
-later segment of the responder - and the session is closed although both ends are alive; a second
-message submitted at `a` is accepted by `send` and never delivered.  The schedule is timely. -/
-theorem idle_close_example :
-    (runT (freshT false false none none) idleCloseTops).closed = true ∧
-    (runT (freshT false false none none) idleCloseTops).l.b.fetched = [([1, 2, 3], 100)] ∧
-    (runT (freshT false false none none) idleCloseTops).l.a.submitted = [[1, 2, 3], [4, 5]] ∧
-    (runT (freshT false false none none) (idleCloseTops.take 14)).closed = false ∧
-    TimelyFrom (runLink (freshLink false false none none) handshakeOps) idleOps1 :=
+/-- **`late_first_message_example`** (the former `idle_close_example`: on the code before the fix
+`C18-handshake-response-never-acked` this history closed the session at 31 s - the responder's
+handshake response, sent at 0 s, was never acknowledged - and the second message was accepted by
+`send` and never delivered; `corpus/C18/idle-timeout.txt` case 3).  Now: the initiator acknowledges
+the handshake response when its 15 s timer fires, the responder's idle timer stops, the first
+message (submitted at 20 s) and the second (at 31 s) are delivered, no timeout fires.  The schedule
+is timely. -/
+theorem late_first_message_example :
+    (runT (freshT false false none none) lateTops).closed = false ∧
+    (runT (freshT false false none none) lateTops).l.b.fetched = [([1, 2, 3], 100), ([4, 5], 100)] ∧
+    (runT (freshT false false none none) lateTops).l.a.submitted = [[1, 2, 3], [4, 5]] ∧
+    (runT (freshT false false none none) lateTops).l.now = 31 ∧
+    TimelyFrom (runLink (freshLink false false none none) handshakeOps) lateOps1 :=
   ⟨by decide, by decide, by decide, by decide, timely_of_B _ _ (by decide)⟩
 
 /-! ## The ring buffer: the real (checked) index arithmetic never panics and refines the byte queue of the session model -/
@@ -1323,8 +1378,10 @@ never fail): a ring whose indices violate the invariant panics — `end = 5` in 
 `buf.len() - end` underflows — and so does `RingBuf<0>::push_byte`. -/
 example : ({ n := 4, buf := [0, 0, 0, 0], start := 0, end_ := 5, nonEmpty := true } : Ring).push [1] =
     .error (.panic "push: buf.len() - end") := rfl
+/-- (contrast: a ring satisfying the invariant - a pop across the wrap - answers `.ok`) -/
 example : ({ n := 4, buf := [0, 0, 0, 0], start := 3, end_ := 1, nonEmpty := true } : Ring).pop 3 =
     .ok ({ n := 4, buf := [0, 0, 0, 0], start := 1, end_ := 1, nonEmpty := false }, [0, 0]) := rfl
+/-- a storage shorter than the indices assume: the slice range panics -/
 example : ({ n := 4, buf := [0, 0], start := 0, end_ := 3, nonEmpty := true } : Ring).pop 3 =
     .error (.panic "pop: buf[start..start + len]") := rfl
 example : Ring.run (Ring.new 0) [.pop 3, .pushByte 1] = .error (.panic "push_byte: buf[end]") := rfl
